@@ -104,10 +104,15 @@ def rule_R5_strip(text):
 def _receiver_start(m, dot):
     """walk back from '.' over a simple receiver expression: idents, `.`, `self`, `[...]`, `(...)` suffixes."""
     i = dot
+    while i > 0 and m[i - 1].isspace():     # rustfmt puts `.method(` of a long receiver on its own line
+        i -= 1
     while i > 0:
         c = m[i - 1]
         if c.isalnum() or c == '_' or c == '.':
             i -= 1
+            if c == '.':
+                while i > 0 and m[i - 1].isspace():
+                    i -= 1
         elif c in ')]':
             # find matching opener backwards
             depth, j = 0, i - 1
